@@ -18,6 +18,7 @@
     render <rootdirhex> <namehex> <quotation: ok | ok hex|… | x:<exc spec>> <k> <entry>*k <arg>…   → ok <hex> | raise <display>
     main  <render: ok | exc spec> <load>|<transpile>|<write> …        → done <n> | reported <display> | crashed <display>
     turn  <unload> <load> <transpile> <render>   (each ok | exc spec)   → running | quit | died <display>
+    wflush <mkdir> <first _flush> <second _flush>   (each ok | exc spec)   → outcome
     loop  <in> <in> …                                      → <running|quit|died <display>> <consumed>
                                                                                in = exit | interrupt | code|<ok | exc spec>|<ok | exc spec>
     msg   <arg> <arg> …                                    → ok <hex> | raise <display>      arg = s:<hex> | o:<hex> | x:<reprhex>:<exc spec>
@@ -243,6 +244,10 @@ def step (_ : Unit) : List String → Unit × String
     match parseResult u, parseResult l, parseResult t, parseResult r with
     | some a, some b, some c, some d => ((), showStatus (Tranp.Errors.step (Input.code (interactiveTurn a b c) d)))
     | _, _, _, _ => ((), "bad-op")
+  | ["wflush", m, a, b] =>
+    match parseResult m, parseResult a, parseResult b with
+    | some x, some y, some z => ((), showOutcome (writerFlush x y z))
+    | _, _, _ => ((), "bad-op")
   | "loop" :: ins =>
     match ins.mapM parseInput with
     | some is => let r := run is; ((), s!"{showStatus r.1} {r.2}")
